@@ -363,6 +363,61 @@ fn honest(h: &mut Harness) {
     }
 }
 
+/// `StrandSignatureSk::new(rng)` of both front-ends under the byte tape (src/rnd.rs hook):
+/// the key is the first 32 tape bytes, nothing else is drawn; it signs and verifies; without a
+/// tape (OsRng) two generated keys differ.
+fn generated(h: &mut Harness) {
+    use strand::rnd::StrandRng;
+    use strand::verif_hooks as vh;
+    let quick = h.tier == Tier::Quick;
+    for i in 0..(if quick { 6 } else { 60 }) {
+        let mut tape = h.rng.bytes(96);
+        if i == 0 {
+            tape = vec![0; 96];
+        }
+        if i == 1 {
+            tape = vec![0xff; 96];
+        }
+        for front in 0..2 {
+            let tp = tape.clone();
+            let out = h.case(TOK, "ed_new", vec![b(&tape)], move || {
+                vh::load_byte_tape(Some(tp.clone()));
+                let r = std::panic::catch_unwind(|| {
+                    let mut rng = StrandRng;
+                    if front == 0 {
+                        z::StrandSignatureSk::new(&mut rng).strand_serialize().unwrap()
+                    } else {
+                        d::StrandSignatureSk::new(&mut rng).strand_serialize().unwrap()
+                    }
+                });
+                let left = vh::byte_tape_len().unwrap_or(0);
+                vh::load_byte_tape(None);
+                match r {
+                    Ok(k) => Out::Ok(l(vec![b(&k), nu((tp.len() - left) as u64)])),
+                    Err(_) => Out::Panic,
+                }
+            });
+            h.check(out == Out::Ok(l(vec![b(&tape[..32]), nu(32)])), || format!("front-end {}: a generated key is not the 32 bytes drawn from the RNG (tape {:02x?})", front, &tape[..40]));
+        }
+        // the generated key signs and the signature verifies on both front-ends
+        let msg = h.rng.bytes(i * 11);
+        let skz = z::StrandSignatureSk::strand_deserialize(&tape[..32]).unwrap();
+        let pk = z::StrandSignaturePk::from(&skz).strand_serialize().unwrap();
+        let sig = skz.sign(&msg).strand_serialize().unwrap();
+        let (a, c) = both(h, &pk, &sig, &msg);
+        h.check(a == t() && c == t(), || "a signature under a generated key is rejected".to_string());
+    }
+    // no tape: the operating system's RNG; fresh keys
+    let mut rng = StrandRng;
+    let mut seen = std::collections::HashSet::new();
+    for _ in 0..(if quick { 8 } else { 64 }) {
+        let kz = z::StrandSignatureSk::new(&mut rng).strand_serialize().unwrap();
+        let kd = d::StrandSignatureSk::new(&mut rng).strand_serialize().unwrap();
+        h.check(kz.len() == 32 && kd.len() == 32, || "generated key is not 32 bytes".to_string());
+        h.check(seen.insert(kz) & seen.insert(kd), || "two generated signing keys coincide".to_string());
+    }
+}
+
 fn small_order(h: &mut Harness) {
     let quick = h.tier == Tier::Quick;
     let tors = torsion_encodings();
@@ -441,6 +496,7 @@ pub fn run(h: &mut Harness) {
     let res = std::panic::catch_unwind(std::panic::AssertUnwindSafe(|| {
         base64_stream(h);
         honest(h);
+        generated(h);
         small_order(h);
         decoders(h);
     }));
